@@ -33,7 +33,7 @@ MC_PROPS = {
     "C06": ([], ["A_C06"], ["W", "A", "D"]),
     "C07": (["I_C07_bounds", "I_C07_conserved", "I_End"], ["A_C07"], ["A", "B", "W", "A3"]),
     "C08": (["I_C08_limits"], ["A_C08", "A_C08b", "A_C08c"], ["A", "B", "P", "A3"]),
-    "C09": (["I_C09_count"], ["A_C09"], ["A", "P", "A3"]),
+    "C09": (["I_C09_count", "I_C09_prompt"], ["A_C09"], ["A", "P", "A3"]),
     "C12": (["I_End"], ["A_C12"], ["A", "W", "B", "A3"]),
     "C13": (["I_C13_end", "I_C13_nodup"], [], ["A", "B", "P", "A3"]),
     "C15": (["I_C15_reported"], ["A_C15"], ["W"]),
